@@ -295,7 +295,7 @@ func runC04(args []string) {
 				sizes = []int{0, 1, 2, 33, 300}
 			}
 			if *tier == "thorough" {
-				sizes = append(sizes, 5000, 20000)
+				sizes = append(sizes, 5000, 5001, 20000)
 			}
 			taskSet := []int{-1, 0, 1, 2, 3, 7, 16, 33, 1024}
 			procSet := []int{1, 2, 3, 8, 16}
@@ -345,7 +345,8 @@ func runC04(args []string) {
 				if !implemented {
 					continue
 				}
-				for _, pat := range []string{"lin", "few", "onehot", "pm", "inf", "collide", "same"} {
+				// "small" puts all the work into the first window: an overweight chunk, split over two goroutines (c >= 10)
+				for _, pat := range []string{"lin", "few", "onehot", "pm", "inf", "collide", "same", "small"} {
 					n := 300
 					if cw >= 10 {
 						n = 1500 // enough filled buckets for the batch-affine processor (c=10: 80 ... c=16: 640)
@@ -353,8 +354,11 @@ func runC04(args []string) {
 					if gn == "G2" && !full {
 						n = n / 3
 					}
-					if !full && pat != "lin" && pat != "few" && pat != "collide" {
+					if !full && pat != "lin" && pat != "few" && pat != "collide" && pat != "small" {
 						continue
+					}
+					if pat == "small" || ci%2 == 1 {
+						n |= 1 // odd lengths: the two halves of a split chunk differ in size
 					}
 					rc := mk(pat, n, cw)
 					pts, scs := g.buildInputs(rc)
